@@ -45,7 +45,7 @@ COMPONENTS = {
              'chain as for RPC)', 'event loop -> SimLoop', 'worker restart -> new launcher on a fresh loop'],
 }
 ASSUMPTIONS = ['task arguments are picklable', 'a rejected task comes back to the sender as TaskRejected']
-EXPECTED_COUNTERS = ['probe:termination_hook_fault_fired', 'sender:async', 'sender:thread', 'op:create', 'op:launch', 'op:continue', 'op:execute', 'op:bogus', 'op:snapshot', 'op:restart',
+EXPECTED_COUNTERS = ['probe:no_reply', 'sender:thread_execute', 'probe:termination_hook_fault_fired', 'sender:async', 'sender:thread', 'op:create', 'op:launch', 'op:continue', 'op:execute', 'op:bogus', 'op:snapshot', 'op:restart',
                      'probe:continue_tagged', 'probe:continue_missing', 'probe:rejected_no_persister', 'probe:nowait',
                      'probe:reply_error', 'persister:none', 'persister:memory', 'persister:pickle', 'loader:custom',
                      'via:loopcomm', 'via:direct']
